@@ -1,1 +1,537 @@
-"""Rules for C14 (see DESIGN.md section 5)."""
+"""C14 -- arguments honoured or refused with ValueError; nothing else escapes."""
+import ast
+
+from .. import ev, eff, iso, nf, pat, src
+from ..core import rule, ob, explain, Ob
+from ..ev import PyRaise
+from ..interp import Interp, make_callable, FuncVal, callable_env
+from ..src import Unknown
+from .common import C, levels, micro_versions, modes, need, single
+from . import p04, p06, p07, p08, wrappers
+
+explain('C14', '''Decided (structural): every explicit raise in the package raises ValueError or a subclass, except four
+enumerated protocol/platform sites; the argument normalisers (version, level, mode, mask), the serialiser dispatch, the
+colour parsers and the scale/border validators are control code and are interpreted abstractly over large domains of
+well-formed and malformed arguments (all letter cases, numeric strings, out-of-range numbers, wrong spellings, empty and
+truncated colour strings, short/long/out-of-range colour tuples): they return the canonical value or raise ValueError,
+never KeyError/IndexError/AttributeError/TypeError; encode is interpreted over the excluded combinations (H or ECI with
+Micro, Micro version with micro=False, QR version with micro=True, mode not in version, mask outside the range of the
+version class finally chosen, version outside the table) and refuses each with ValueError before _encode; the two
+asserts are unreachable with documented arguments; the call graph has no recursion and the only while-loop advances;
+odd-length kanji/hanzi input is refused (C07.R4); the command line tool returns 0 only after writing and turns a
+ValueError from symbol creation into exit status 1 with the message on stderr. NOT decided: absence of every implicit
+exception for every value of the documented types (a whole-program value analysis).''')
+
+ALLOWED_OTHER = {   # (module, function qualname, exception) -> reason
+    ('__init__', 'QRCode.__getattr__', 'AttributeError'): 'attribute protocol',
+    ('__init__', 'QRCodeSequence.__getattr__', 'AttributeError'): 'attribute protocol',
+    ('writers', 'write_terminal_win', 'OSError'): 'Windows console API unavailable (platform-only code)',
+    ('__init__', 'QRCode.show', '<re-raise>'): 're-raise after cleanup in show()',
+}
+
+
+def _exc_name(fx, mod, node):
+    if node is None:
+        return '<re-raise>'
+    n = node.func if isinstance(node, ast.Call) else node
+    return src.dotted(n) or ast.unparse(n)
+
+
+def _is_valueerror_family(fx, mod, name):
+    if name in ('ValueError', 'UnicodeError', 'UnicodeEncodeError', 'UnicodeDecodeError'):
+        return True
+    # repository classes
+    for m in (mod, 'encoder'):
+        try:
+            cls = fx.forest.cls(m, name.split('.')[-1])
+        except Unknown:
+            continue
+        return any(_is_valueerror_family(fx, m, src.dotted(b) or '') for b in cls.bases)
+    return False
+
+
+@rule('C14', 'R1', 60, 'every explicit raise is ValueError or a subclass (four enumerated exceptions)')
+def r1(fx):
+    seen_allowed = set()
+    for m, q, fn in fx.forest.functions():
+        for n in src.walk_local(fn):
+            if isinstance(n, ast.Raise):
+                name = _exc_name(fx, m, n.exc)
+                top = q
+                key = None
+                for (am, aq, an), why in ALLOWED_OTHER.items():
+                    if am == m and (q == aq or q.startswith(aq + '.')) and an == name:
+                        key = (am, aq, an)
+                if key:
+                    seen_allowed.add(key)
+                    yield Ob(f'{m}.{q}: raise {name}', True, f'{m}.{q}', n.lineno, name, f'allowed: {ALLOWED_OTHER[key]}', False)
+                    continue
+                ok = _is_valueerror_family(fx, m, name)
+                yield Ob(f'{m}.{q}: raise {name}', ok, f'{m}.{q}', n.lineno, name, 'ValueError or a subclass', True)
+
+
+def _sweep(f, domain, expect):
+    """Run callable f over domain; expect(x) -> value | 'ValueError'.  Returns list of mismatches."""
+    bad = []
+    for x in domain:
+        try:
+            got = f(x)
+        except PyRaise as e:
+            got = f'raises {e.name}'
+        want = expect(x)
+        if want == 'ValueError':
+            want = 'raises ValueError'
+        if got != want:
+            bad.append((x, got, want))
+    return bad
+
+
+@rule('C14', 'R2', 6, 'normalisers: documented spellings accepted (any case, numeric strings), everything else ValueError')
+def r2(fx):
+    it = Interp(max_steps=20_000_000)
+    mv, lv, md = micro_versions(fx), levels(fx), modes(fx)
+    nv = make_callable(fx.forest, 'encoder', 'normalize_version', it)
+    dom = list(range(-5, 45)) + [str(i) for i in range(-2, 43)] + ['M1', 'M2', 'M3', 'M4', 'm1', 'm2', 'm3', 'm4', 'M0', 'M5', 'm5', 'x', '',
+                                                                  'M', '1.5', ' 7', '40 ', None, 'M10', 'mm1']
+
+    def exp_v(x):
+        if x is None:
+            return None
+        if isinstance(x, str) and x.upper() in ('M1', 'M2', 'M3', 'M4'):
+            return mv[int(x[1]) - 4]
+        try:
+            i = int(x)
+        except ValueError:
+            return 'ValueError'
+        return i if 1 <= i <= 40 else 'ValueError'
+    bad = _sweep(nv, dom, exp_v)
+    yield ob(f'normalize_version over {len(dom)} values', not bad, fx.fn('encoder', 'normalize_version'), got=bad[:4], want=[])
+    ne = make_callable(fx.forest, 'encoder', 'normalize_errorlevel', it)
+    dom = ['l', 'm', 'q', 'h', 'L', 'M', 'Q', 'H', 'x', '', 'LL', 'low', '-', 0, 1, 2, 3, 4, -1, 7] + [None]
+
+    def exp_e(x):
+        if x is None:
+            return None
+        if isinstance(x, str):
+            return lv[x.upper()] if x.upper() in lv and len(x) == 1 else 'ValueError'
+        return x if x in lv.values() else 'ValueError'
+    bad = _sweep(lambda x: ne(x, accept_none=True), dom, exp_e)
+    yield ob(f'normalize_errorlevel over {len(dom)} values', not bad, fx.fn('encoder', 'normalize_errorlevel'), got=bad[:4], want=[])
+    try:
+        ne(None)
+        got = 'accepted'
+    except PyRaise as e:
+        got = e.name
+    yield ob('normalize_errorlevel(None) without accept_none', got == 'ValueError', fx.fn('encoder', 'normalize_errorlevel'), got=got, want='ValueError')
+    nm = make_callable(fx.forest, 'encoder', 'normalize_mode', it)
+    names = ['numeric', 'alphanumeric', 'byte', 'kanji', 'hanzi']
+    dom = names + [n.upper() for n in names] + [n.title() for n in names] + ['x', '', 'bytes', 'num', None, 0, 3, 5, 16] + list(md[n] for n in names)
+
+    def exp_m(x):
+        if x is None:
+            return None
+        if isinstance(x, str):
+            return md[x.lower()] if x.lower() in names else 'ValueError'
+        return x if x in [md[n] for n in names] else 'ValueError'
+    bad = _sweep(nm, dom, exp_m)
+    yield ob(f'normalize_mode over {len(dom)} values', not bad, fx.fn('encoder', 'normalize_mode'), got=bad[:4], want=[])
+    for o in p06.r9(fx):
+        if o.key.startswith('normalize_mask'):
+            yield o
+
+
+@rule('C14', 'R3', 5, 'user-keyed table lookups raise ValueError: output kind (any case, svgz), mode/version table, ECI number')
+def r3(fx):
+    it = Interp()
+    calls = []
+
+    def mk(kind):
+        def w(matrix, matrix_size, out, **kw):
+            calls.append((kind, out, kw))
+        return w
+    genv = callable_env(fx.forest, 'writers', it)
+    table = {k: mk(k) for k in C(fx, '_VALID_SERIALIZERS', 'writers')}
+
+    class GZ:
+        _model = ('open',)
+
+        @staticmethod
+        def open(out, mode, compresslevel=9):
+            calls.append(('gzip.open', out, mode, compresslevel))
+            return CM(('gz', out))
+
+    class CM:
+        def __init__(self, v):
+            self.v = v
+    genv['_VALID_SERIALIZERS'] = table
+    genv['gzip'] = GZ()
+    save = FuncVal(fx.fn('writers', 'save'), genv, it)
+    kinds = sorted(table)
+    yield ob('serialiser table has the 12 kinds', kinds == sorted(['svg', 'png', 'eps', 'txt', 'pdf', 'ans', 'pbm', 'pam', 'ppm', 'tex', 'xbm', 'xpm']),
+             fx.forest.module_assign('writers', '_VALID_SERIALIZERS'), where='writers._VALID_SERIALIZERS', got=kinds, want='12 kinds')
+    bad = []
+
+    class Stream:
+        _model = ()
+    for k in kinds:
+        for spell in (k, k.upper(), k.title()):
+            for how in ('kind', 'path'):
+                calls.clear()
+                try:
+                    if how == 'kind':
+                        save('<m>', (21, 21), Stream(), kind=spell, scale=3)
+                    else:
+                        save('<m>', (21, 21), f'dir.v2/name.{spell}', scale=3)
+                    got = calls[-1][0] if calls else None
+                except PyRaise as e:
+                    got = f'raises {e.name}'
+                if got != k or (calls and calls[-1][2] != {'scale': 3}):
+                    bad.append((spell, how, got))
+    yield ob('every kind in any letter case, by kind= and by file extension, reaches its serialiser with the options', not bad,
+             fx.fn('writers', 'save'), got=bad[:4], want=[])
+    bad = []
+    for spell, how in (('xyz', 'kind'), ('', 'kind'), ('svgx', 'kind'), ('name.xyz', 'path'), ('name', 'path'), ('name.', 'path'), ('pngg', 'kind')):
+        try:
+            if how == 'kind':
+                save('<m>', (21, 21), Stream(), kind=spell)
+            else:
+                save('<m>', (21, 21), spell)
+            bad.append((spell, 'accepted'))
+        except PyRaise as e:
+            if e.name != 'ValueError':
+                bad.append((spell, e.name))
+    yield ob('unknown output kind / extension is refused with ValueError', not bad, fx.fn('writers', 'save'), got=bad, want=[])
+    # svgz: With statement is not interpreted; check its shape
+    sv = fx.fn('writers', 'save')
+    w = [s for s in ast.walk(sv) if isinstance(s, ast.With)]
+    ww = single(w, 'with-statement of the svgz branch')
+    okz = pat.match(ww.items[0].context_expr, "gzip.open(out, 'wb', compresslevel=kw.pop('compresslevel', 9))") is not None and \
+        pat.match(ww.body[0], 'serializer(matrix, matrix_size, f, **kw)', mode='stmt') is not None and ast.unparse(ww.items[0].optional_vars) == 'f'
+    g = nf.guard_text(nf.guards_of(ww, sv))
+    isz = single([s for s in sv.body if isinstance(s, ast.Assign) and ast.unparse(s.targets[0]) == 'is_svgz'], 'is_svgz')
+    yield ob('svgz = the SVG serialiser writing through gzip.open, only for file names', okz and g == 'is_svgz'
+             and nf.norm(isz.value) == "(ext == 'svgz' and not is_stream)", ww, got=f'{ast.unparse(ww.items[0].context_expr)} if {ast.unparse(isz.value)}',
+             want="gzip.open(out, 'wb', compresslevel=kw.pop('compresslevel', 9)) if not is_stream and ext == 'svgz'")
+    # is_mode_supported / get_eci_assignment_number
+    ims = make_callable(fx.forest, 'encoder', 'is_mode_supported', it)
+    try:
+        ims(99, 1)
+        got = 'accepted'
+    except PyRaise as e:
+        got = e.name
+    yield ob('is_mode_supported: unknown mode constant -> ValueError', got == 'ValueError', fx.fn('encoder', 'is_mode_supported'), got=got, want='ValueError')
+
+    class Codecs:
+        _model = ('lookup',)
+
+        @staticmethod
+        def lookup(name):
+            class Info:
+                _model = ('name',)
+            i = Info()
+            i.name = {'latin1': 'iso8859-1', 'utf8': 'utf-8', 'koi8-r': 'koi8-r'}[name]
+            return i
+    g2 = callable_env(fx.forest, 'encoder', it, {'codecs': Codecs()})
+    ge = FuncVal(fx.fn('encoder', 'get_eci_assignment_number'), g2, it)
+    res = []
+    for enc in ('latin1', 'utf8', 'koi8-r'):
+        try:
+            res.append(ge(enc))
+        except PyRaise as e:
+            res.append(e.name)
+    yield ob('ECI number: known codecs map to their number, a codec without ECI number -> ValueError', res == [3, 26, 'ValueError'],
+             fx.fn('encoder', 'get_eci_assignment_number'), got=res, want=[3, 26, 'ValueError'])
+
+
+@rule('C14', 'R4', 54, 'encode refuses the excluded combinations with ValueError before anything is encoded')
+def r4(fx):
+    fn = fx.fn('encoder', 'encode')
+    mv, lv = micro_versions(fx), levels(fx)
+    it = Interp()
+
+    def run(guessed, **kw):
+        genv, rec = p04._encode_stub_env(fx, it, mv[guessed] if guessed < 1 else guessed)
+        args = dict(error=None, version=None, mode=None, mask=None, encoding=None, eci=False, micro=None, boost_error=True)
+        args.update(kw)
+        try:
+            FuncVal(fn, genv, it)('<content>', **args)
+            return 'accepted', rec
+        except PyRaise as e:
+            return f'raises {e.name}', rec
+    cases = []
+    for ver in ('M1', 'M2', 'm3', 'M4'):
+        cases.append((f'ECI with version {ver}', dict(eci=True, version=ver), -2, 'raises ValueError'))
+        cases.append((f'version {ver} with micro=False', dict(version=ver, micro=False), -2, 'raises ValueError'))
+    cases.append(('ECI with micro=True', dict(eci=True, micro=True), -2, 'raises ValueError'))
+    for ver in (1, '5', 40):
+        cases.append((f'QR version {ver} with micro=True', dict(version=ver, micro=True), 1, 'raises ValueError'))
+    for ver in (0, 41, -1, 'M5', 'x', '', 'M0'):
+        cases.append((f'version {ver!r} outside M1-M4 / 1-40', dict(version=ver), 1, 'raises ValueError'))
+    for lvl in ('x', '', 'LL', 5):
+        cases.append((f'error level {lvl!r}', dict(error=lvl), 1, 'raises ValueError'))
+    for mode in ('x', '', 3, 'bytes'):
+        cases.append((f'mode {mode!r}', dict(mode=mode), 1, 'raises ValueError'))
+    # mask range depends on the class of the version finally used
+    for guessed, masks_ok, masks_bad in ((-3, (0, 3, '2'), (4, 7, -1, '5', 8)), (0, (0, 3), (4, 7)), (1, (0, 7, '7'), (8, -1, '9')), (40, (0, 7), (8,))):
+        for m in masks_ok:
+            cases.append((f'mask {m!r}, smallest fitting version {guessed}', dict(mask=m), guessed, 'accepted'))
+        for m in masks_bad:
+            cases.append((f'mask {m!r}, smallest fitting version {guessed}', dict(mask=m), guessed, 'raises ValueError'))
+    cases.append(('mask 5 with requested version M4', dict(mask=5, version='M4'), -3, 'raises ValueError'))
+    cases.append(('mask 5 with requested version 1', dict(mask=5, version=1), -3, 'accepted'))
+    cases.append(('mask "x"', dict(mask='x'), 1, 'raises ValueError'))
+    cases.append(('plain call', dict(), -3, 'accepted'))
+    cases.append(('ECI with micro=None and no version', dict(eci=True), 1, 'accepted'))
+    for name, kw, guessed, want in cases:
+        got, rec = run(guessed, **kw)
+        ok = got == want and (want == 'accepted') == ('_encode' in rec)
+        yield ob(name, ok, fn, got=f'{got}; _encode reached: {"_encode" in rec}', want=want)
+    # eci and a Micro symbol never meet: with eci the search is not allowed to return a Micro version (C04.R3), and
+    # encode passes the same eci on
+    got, rec = run(1, eci=True)
+    yield ob('eci reaches the version search and _encode unchanged', rec.get('find_version', (0, 0))[1] is True and rec['_encode']['eci'] is True,
+             fn, got=(rec.get('find_version'), rec.get('_encode')), want='eci=True in both')
+
+
+@rule('C14', 'R5', 3, 'asserts are unreachable with documented arguments')
+def r5(fx):
+    asserts = []
+    for m, q, fn in fx.forest.functions():
+        for n in src.walk_local(fn):
+            if isinstance(n, ast.Assert):
+                asserts.append((m, q, n))
+    got = sorted((m, q, ast.unparse(n.test)) for m, q, n in asserts)
+    want = [('encoder', 'find_version', 'not (eci and micro)'), ('encoder', 'mask_scores', 'width == height')]
+    if got != want:
+        raise Unknown(f'the set of assert statements changed: {got}')
+    # find_version: every caller passes micro=False or is dominated by the eci/micro refusal
+    P = eff.program(fx.forest)
+    callers = [(fi, call) for fi in P.fns.values() for call, cs in fi.calls if any(g.key == ('encoder', 'find_version') for g in cs)]
+    for fi, call in callers:
+        kw = src.kwargs_of(call)
+        micro = kw.get('micro', call.args[3] if len(call.args) > 3 else None)
+        if isinstance(micro, ast.Constant) and micro.value is False:
+            yield ob(f'{fi.name}: find_version(micro=False)', True, call, got='micro=False', want='eci and micro cannot both hold')
+        else:
+            # encode: `if eci and (micro or version in MICRO_VERSIONS): raise` dominates
+            doms = nf.dominators(call, fi.node, lambda s: isinstance(s, ast.If) and any(isinstance(x, ast.Raise) for x in s.body)
+                                 and pat.match(s.test, 'eci and (micro or H__)') is not None)
+            yield ob(f'{fi.name}: find_version call dominated by the refusal of eci with micro', bool(doms), call,
+                     got=[ast.unparse(d.test) for d in doms], want='if eci and (micro or ...): raise ValueError')
+    # mask_scores: width == height on its call chain
+    ok = True
+    chain = []
+    for caller, callee, patt in (('evaluate_mask', 'mask_scores', 'mask_scores(matrix, width, height)'),
+                                 ('find_and_apply_best_mask', 'eval_mask', 'eval_mask(m, width, height)')):
+        fn = fx.fn('encoder', caller)
+        cs = [c for c in src.calls_in(fn, callee, into_nested=False)]
+        ok &= len(cs) == 1 and pat.match(cs[0], patt) is not None
+        chain.append([ast.unparse(c) for c in cs])
+    yield ob('mask_scores receives the width/height of _encode, where height = width (C02.R3)', ok, fx.fn('encoder', 'mask_scores'),
+             got=chain, want='width, height passed through unchanged')
+
+
+@rule('C14', 'R6', 3, 'termination: no recursion in the call graph; the only while-loop advances; no unbounded iterators')
+def r6(fx):
+    P = eff.program(fx.forest)
+    cyc = P.call_cycles()
+    yield ob('call graph is acyclic', not cyc, fx.forest.mod('encoder'), where='package call graph', got=cyc, want=[])
+    whiles = []
+    for m, q, fn in fx.forest.functions():
+        for n in src.walk_local(fn):
+            if isinstance(n, ast.While):
+                whiles.append((m, q))
+    if sorted(set(whiles)) != [('encoder', 'mask_scores.n3_pattern_occurrences')]:
+        raise Unknown(f'the set of while-loops changed: {sorted(set(whiles))} (each needs a progress argument)')
+    from . import p06 as _p06
+    for o in _p06.r7(fx):
+        if o.key.startswith('search resumes') or o.key.startswith('the resumed search'):
+            yield o
+    inf = []
+    for m, q, fn in fx.forest.functions():
+        for c in src.calls_in(fn, into_nested=False):
+            d = (src.call_name(c) or '').split('.')[-1]
+            if d in ('count', 'cycle') and (src.call_name(c) or '').split('.')[0] in ('itertools', 'count', 'cycle') or \
+                    (d == 'repeat' and len(c.args) == 1 and not c.keywords and not _inside_fillvalue(c)):
+                inf.append(f'{m}.{q}: {ast.unparse(c)}')
+    yield ob('no unbounded iterator (count, cycle, repeat without count) is consumed', not inf, fx.forest.mod('writers'),
+             where='package', got=inf, want=[])
+
+
+def _inside_fillvalue(call):
+    p = src.parent(call)
+    return isinstance(p, ast.keyword) and p.arg == 'fillvalue'
+
+
+COLORS_BAD = ['', '#', '#1', '#12', '#12345', '#1234567', '#123456789', 'nocolor', '#ggg', 'ggg', '12', '#gggggg', ' red', 'red ', '##123',
+              (1, 2), (1,), (), (1, 2, 3, 4, 5), (256, 0, 0), (-1, 0, 0), (0, 0, 300), (0, 0, 0, 2.0), (0, 0, 0, -1), (0, 0, 0, 300), (0, 0, 0, -0.5)]
+COLORS_OK = ['#123', '#1234', '#123456', '#12345678', '123456', 'abc', 'red', 'RED', 'Red', 'black', '#FFF', (1, 2, 3), (1, 2, 3, 4), (0, 0, 0, 0.5),
+             (255, 255, 255), (0, 0, 0, 255), (0, 0, 0, 1.0)]
+
+
+@rule('C14', 'R8', 7, 'colour parsers: malformed strings/tuples -> ValueError, well-formed ones accepted; scale/border validators')
+def r8(fx):
+    it = Interp(max_steps=20_000_000)
+    genv = callable_env(fx.forest, 'writers', it)
+    for name, extra in (('_color_to_rgba', {}), ('_color_to_rgb_or_rgba', {}), ('_color_to_webcolor', {}), ('_color_is_black', {})):
+        f = FuncVal(fx.fn('writers', name), genv, it)
+        bad = []
+        for alpha in ((True, False) if name in ('_color_to_rgba', '_color_to_rgb_or_rgba') else (None,)):
+            for c in COLORS_BAD + COLORS_OK:
+                try:
+                    f(c) if alpha is None else f(c, alpha_float=alpha)
+                    got = 'accepted'
+                except PyRaise as e:
+                    got = f'raises {e.name}'
+                want = 'accepted' if (c in COLORS_OK or name == '_color_is_black') else 'raises ValueError'
+                if got != want:
+                    bad.append((c, alpha, got))
+        yield ob(f'{name} over {len(COLORS_BAD)} malformed and {len(COLORS_OK)} well-formed colours', not bad, fx.fn('writers', name),
+                 got=bad[:4], want=[])
+    f = FuncVal(fx.fn('writers', '_color_to_rgb'), genv, it)
+    bad = []
+    for c in COLORS_BAD + ['#12345678', (1, 2, 3, 4)]:
+        try:
+            f(c)
+            bad.append((c, 'accepted'))
+        except PyRaise as e:
+            if e.name != 'ValueError':
+                bad.append((c, e.name))
+    yield ob('_color_to_rgb refuses malformed colours and alpha channels with ValueError', not bad, fx.fn('writers', '_color_to_rgb'), got=bad[:4], want=[])
+    vw = FuncVal(fx.fn('writers', '_valid_width_height_and_border'), genv, it)
+    bad = []
+    for scale, border, want in ((1, None, (29, 29, 4)), (2, 0, (42, 42, 0)), (0.5, 1, (11.5, 11.5, 1)), (0, 1, 'ValueError'), (-1, 1, 'ValueError'),
+                                (-0.5, 1, 'ValueError'), (1, -1, 'ValueError'), (1, 0.5, 'ValueError'), (3, -2, 'ValueError')):
+        try:
+            got = tuple(vw((21, 21), scale, border))
+        except PyRaise as e:
+            got = e.name
+        if got != want:
+            bad.append((scale, border, got, want))
+    yield ob('_valid_width_height_and_border: scale <= 0, negative or fractional border -> ValueError; else ((size+2b)*s, border)', not bad,
+             fx.fn('writers', '_valid_width_height_and_border'), got=bad[:3], want=[])
+    # every serialiser validates before writing
+    writersl = ['write_svg', 'write_eps', 'write_png', 'write_pdf', 'write_pbm', 'write_pam', 'write_ppm', 'write_xpm', 'write_xbm']
+    missing = []
+    for w in writersl:
+        fn = fx.fn('writers', w)
+        first_write = [n for n in src.walk_local(fn) if isinstance(n, ast.With)]
+        v = [c for c in src.calls_in(fn, '_valid_width_height_and_border', into_nested=False)]
+        if len(v) != 1 or not first_write or not nf.dominators(first_write[0], fn, lambda s, v=v: any(x is v[0] for x in ast.walk(s))):
+            missing.append(w)
+    tex = fx.fn('writers', 'write_tex')
+    okt = any(pat.match(s, 'check_valid_scale(scale)', mode='stmt') is not None for s in tex.body) and \
+        any(pat.match(s, 'check_valid_border(border)', mode='stmt') is not None for s in tex.body)
+    yield ob('every sized serialiser validates scale and border before opening the output', not missing and okt, fx.forest.mod('writers'),
+             where='writers.write_*', got=missing, want=[])
+
+
+class Cfg(dict):
+    _model = ('pop', 'get')
+
+
+@rule('C14', 'R9', 6, 'CLI: 0 only after writing; a ValueError while creating the symbol -> message on stderr, exit status 1, no traceback')
+def r9(fx):
+    fn = fx.fn('cli', 'main')
+    it = Interp()
+    log = []
+
+    class SysExit(Exception):
+        pass
+
+    class Sys:
+        _model = ('exit', 'stderr', 'argv')
+
+        class stderr:
+            _model = ('writelines', 'write')
+
+            @staticmethod
+            def writelines(lines):
+                log.append(('stderr', [str(x) for x in lines]))
+
+            @staticmethod
+            def write(s):
+                log.append(('stderr', [str(s)]))
+
+        @staticmethod
+        def exit(code=0):
+            log.append(('exit', code))
+            raise Unknown('__sys_exit__')
+    Sys.stderr = Sys.stderr()
+
+    class QR:
+        _model = ('terminal', 'save')
+
+        def terminal(self, **kw):
+            log.append(('terminal', kw))
+
+        def save(self, out, **kw):
+            log.append(('save', out, kw))
+
+    class OS:
+        _model = ('linesep',)
+        linesep = '\n'
+
+    def run(output, fail):
+        log.clear()
+
+        def parse(args):
+            return Cfg(output=output, border=None, compact=False, scale=1)
+
+        def make_code(config):
+            if fail:
+                from ..interp import Raised
+                raise Raised(None, ValueError, '<library message>')
+            return QR()
+
+        def build_config(config, filename=None):
+            return {'scale': config['scale']}
+        genv = callable_env(fx.forest, 'cli', it, {'parse': parse, 'make_code': make_code, 'build_config': build_config, 'sys': Sys(), 'os': OS()})
+        try:
+            ret = FuncVal(fn, genv, it)(['x'])
+        except Unknown as u:
+            if '__sys_exit__' in str(u):
+                ret = 'sys.exit'
+            else:
+                raise
+        return ret, list(log)
+    ret, lg = run(None, False)
+    yield ob('no output file: prints to the terminal and returns 0', ret == 0 and [x[0] for x in lg] == ['terminal']
+             and lg[0][1] == {'border': None, 'compact': False}, fn, got=(ret, lg), want="(0, [('terminal', {'border': None, 'compact': False})])")
+    ret, lg = run('out.svg', False)
+    yield ob('output file: saves with the built configuration and returns 0', ret == 0 and lg == [('save', 'out.svg', {'scale': 1})], fn,
+             got=(ret, lg), want="(0, [('save', 'out.svg', {'scale': 1})])")
+    ret, lg = run('out.svg', True)
+    okf = ret == 'sys.exit' and [x[0] for x in lg] == ['stderr', 'exit'] and lg[1][1] not in (0, None) and isinstance(lg[1][1], int) \
+        and any('<message of ValueError>' in s or 'library message' in s for s in lg[0][1])
+    # alternatively: main returns a non-zero status and the script entry passes it to sys.exit
+    if not okf and isinstance(ret, int) and ret != 0 and [x[0] for x in lg] == ['stderr']:
+        tail = fx.forest.mod('cli').body[-1]
+        okf = isinstance(tail, ast.If) and any(pat.match(s, 'sys.exit(main())', mode='stmt') is not None for s in tail.body)
+    yield ob('ValueError while creating the symbol: message to stderr, process exit status non-zero, nothing written', okf, fn,
+             got=(ret, lg), want="stderr message then sys.exit(1) (or `sys.exit(main())` at the script entry)")
+    h = [x for x in ast.walk(fn) if isinstance(x, ast.ExceptHandler)]
+    hh = single(h, 'except handler in main')
+    yield ob('the handler catches ValueError (DataOverflowError included) only around symbol creation', ast.unparse(hh.type) == 'ValueError'
+             and len(src.parent(hh).body) == 1 and 'make_code' in ast.unparse(src.parent(hh).body[0]), hh, got=ast.unparse(hh.type), want='ValueError')
+    # console entry point
+    rets = [r for r in ast.walk(fn) if isinstance(r, ast.Return)]
+    yield ob('main has no other successful exit', sorted(ast.unparse(r) for r in rets) in (['return 0', 'return sys.exit(1)'],
+                                                                                           ['return 0', 'return 1']), fn,
+             got=sorted(ast.unparse(r) for r in rets), want=['return 0', 'return sys.exit(1)'])
+    tail = fx.forest.mod('cli').body[-1]
+    yield ob('script entry runs main()', isinstance(tail, ast.If) and nf.norm(tail.test) == "__name__ == '__main__'", tail,
+             got=ast.unparse(tail)[:60], want="if __name__ == '__main__': main()")
+
+
+@rule('C14', 'R7', 10, 'odd-length kanji / hanzi input is refused with ValueError (shared with C07.R4)')
+def r7(fx):
+    for o in p07.r4(fx):
+        if 'requested kanji' in o.key or 'requested hanzi' in o.key:
+            yield o
+
+
+@rule('C14', 'R10', 15, 'make_sequence refusals (Micro version, symbol_count outside 1-16, missing arguments, too short content)')
+def r10(fx):
+    for o in p08.r2(fx):
+        yield o
